@@ -44,7 +44,7 @@ def generate(tier, seed):
     rnd.shuffle(pairs)
     rnd.shuffle(triples)
     progs += [list(p) for p in pairs[:120 if tier == 'quick' else len(pairs)]]
-    progs += [list(p) for p in triples[:150 if tier == 'quick' else 1500]]
+    progs += [list(p) for p in triples[:150 if tier == 'quick' else 6000]]
     nlink = 0
     for rules in progs:
         it = {'family': 'programs-%d-rules' % len(rules), 'program': '\n'.join(rules), 'sentinels': [S1]}
